@@ -326,7 +326,7 @@ pub fn property() -> Property {
         id: "C16",
         run,
         budget: |t| match t {
-            Tier::Quick => 6000,
+            Tier::Quick => 37000,
             Tier::Thorough => 600_000,
         },
         wall_cap_s: |t| match t {
